@@ -40,8 +40,92 @@ def walk_all(func_node: ast.AST) -> Iterator[ast.AST]:
         stack.extend(list(ast.iter_child_nodes(n))[::-1])
 
 
+_BINDERS = (ast.ListComp, ast.SetComp, ast.GeneratorExp, ast.DictComp, ast.Lambda)
+
+
 def u(e: Optional[ast.AST]) -> str:
-    return ast.unparse(e) if e is not None else "<none>"
+    """Source text of a node, in alpha-normal form: variables bound by comprehensions and lambdas are spelled
+    _b0, _b1, ... so that no rule depends on how a bound variable happens to be named (write specs with A(...))."""
+    if e is None:
+        return "<none>"
+    if isinstance(e, ast.AST) and not isinstance(e, (ast.stmt, ast.mod)) and any(isinstance(x, _BINDERS) for x in ast.walk(e)):
+        return ua(e)
+    if isinstance(e, ast.stmt) and not isinstance(e, (ast.FunctionDef, ast.AsyncFunctionDef, ast.ClassDef)) and any(isinstance(x, _BINDERS) for x in ast.walk(e)):
+        return ua(e)
+    return ast.unparse(e)
+
+
+def A(spec: str) -> str:
+    """Alpha-normal form of an expression written in a rule (so `A("[c for c in x]") == u(node)` whatever the code calls c)."""
+    try:
+        return ua(ast.parse(spec, mode="eval").body)
+    except SyntaxError:
+        return ua(ast.parse(spec).body[0])
+
+
+class _Alpha(ast.NodeTransformer):
+    """Rename variables bound by comprehensions and lambdas to _b0, _b1, ... in order of binding."""
+
+    def __init__(self):
+        self.env = [{}]
+        self.k = 0
+
+    def visit_Name(self, n):
+        for scope in reversed(self.env):
+            if n.id in scope:
+                return ast.copy_location(ast.Name(id=scope[n.id], ctx=n.ctx), n)
+        return n
+
+    def _comp(self, node, elts):
+        self.env.append({})
+        for g in node.generators:
+            g.iter = self.visit(g.iter)
+            for nm in [x for x in ast.walk(g.target) if isinstance(x, ast.Name)]:
+                self.env[-1][nm.id] = f"_b{self.k}"
+                self.k += 1
+            g.target = self.visit(g.target)
+            g.ifs = [self.visit(t) for t in g.ifs]
+        for fld in elts:
+            setattr(node, fld, self.visit(getattr(node, fld)))
+        self.env.pop()
+        return node
+
+    def visit_ListComp(self, node):
+        return self._comp(node, ["elt"])
+
+    visit_SetComp = visit_ListComp
+    visit_GeneratorExp = visit_ListComp
+
+    def visit_DictComp(self, node):
+        return self._comp(node, ["key", "value"])
+
+    def visit_Lambda(self, node):
+        self.env.append({})
+        for a in node.args.posonlyargs + node.args.args + node.args.kwonlyargs:
+            self.env[-1][a.arg] = f"_b{self.k}"
+            a.arg = f"_b{self.k}"
+            self.k += 1
+        node.body = self.visit(node.body)
+        self.env.pop()
+        return node
+
+
+def ua(e: Optional[ast.AST]) -> str:
+    """unparse with comprehension / lambda variables renamed canonically (alpha-normal form)."""
+    if e is None:
+        return "<none>"
+    import copy
+    return ast.unparse(_Alpha().visit(copy.deepcopy(e)))
+
+
+def ueq(e: Optional[ast.AST], spec: str) -> bool:
+    """Does expression `e` equal the expression written in `spec`, up to the names of comprehension / lambda variables?"""
+    if e is None:
+        return False
+    try:
+        return ua(e) == ua(ast.parse(spec, mode="eval").body)
+    except SyntaxError:
+        return False
 
 
 def is_name(e, id_: Optional[str] = None) -> bool:
